@@ -512,10 +512,23 @@ Example: `$var = (const) $(my_int)`""",
         if vanilla_macro is None and len(tokens) > 3:
             if operator == "=":
                 try:
+                    inner_command = variable_operation(
+                        old_tokens[2:] if old_tokens is not None else tokens[2:],
+                        tokenizer,
+                        datapack,
+                        is_execute,
+                        FuncContent,
+                        first_arguments,
+                        prefix,
+                    )
+                    if inner_command.startswith("execute store"):
+                        # merge `run execute store` at the junction only
+                        # len("execute ") = 8
+                        inner_command = inner_command[8:]
+                    else:
+                        inner_command = f"run {inner_command}"
                     return DebugWatch.variable_operation_wrapper(
-                        f"""execute store result score {left_token.string} {objective_name} run {variable_operation(old_tokens[2:] if old_tokens is not None else tokens[2:], tokenizer, datapack, is_execute, FuncContent, first_arguments, prefix)}""".replace(
-                            "run execute store", "store"
-                        ),
+                        f"execute store result score {left_token.string} {objective_name} {inner_command}",
                         left_token.string,
                         objective_name,
                         datapack,
